@@ -11,6 +11,7 @@ import (
 	"path/filepath"
 	"strings"
 	"sync"
+	"sync/atomic"
 	"time"
 )
 
@@ -42,6 +43,8 @@ var coverSolvers = []SolverCfg{
 		return []string{"cvc5", "--lang=smt2", "--finite-model-find", fmt.Sprintf("--tlimit=%d", to*1000), f}
 	}},
 }
+
+var queryFileSeq int64
 
 type Solver struct {
 	WorkDir   string
@@ -95,7 +98,8 @@ func (s *Solver) discharge(ob *Obligation, query string, stage int) {
 	text := "(set-logic ALL)\n" + query
 	sum := sha256.Sum256([]byte(text))
 	h := hex.EncodeToString(sum[:])
-	file := filepath.Join(s.WorkDir, "q", h[:2], h+".smt2")
+	// the file name is unique per call: obligations with identical text run concurrently and each removes its file when done
+	file := filepath.Join(s.WorkDir, "q", h[:2], fmt.Sprintf("%s-%d-%d.smt2", h, os.Getpid(), atomic.AddInt64(&queryFileSeq, 1)))
 	cacheFile := filepath.Join(s.CacheDir, h[:2], h)
 	want := "unsat"
 	if ob.Cover {
@@ -148,6 +152,9 @@ func (s *Solver) discharge(ob *Obligation, query string, stage int) {
 		// reachability (vacuity guard): the path must not be refutable. unsat = vacuous = failed;
 		// sat or unknown (quantifiers, no model-based instantiation) = not refuted.
 		res, _, el := runSolver(ctx, solvers[0], file, 2, s.Seed)
+		for try := 0; res == "error" && try < 3; try++ {
+			res, _, el = runSolver(ctx, solvers[0], file, 2, s.Seed) // a solver process that died without an answer is retried
+		}
 		record(res, solvers[0].Name, el)
 		ob.TimeS = el
 		ob.Solver = solvers[0].Name + "=" + res
@@ -293,6 +300,23 @@ func (s *Solver) DischargeAll(obs []*Obligation, par int) {
 		}
 	}
 	run(rest, 5, 2)
+	// last resort for what is still undecided (not refuted): once more, three at a time, with another seed and twice
+	// the time - a solver starved by a loaded machine must not turn into an alarm.
+	var again []int
+	for i, ob := range obs {
+		if ob.Status == "undecided" && !ob.Cover {
+			again = append(again, i)
+		}
+	}
+	if len(again) > 0 && len(again) <= 12 {
+		saveT, saveSeed := s.TimeoutS, s.Seed
+		s.TimeoutS, s.Seed = 2*s.TimeoutS, s.Seed+7
+		for _, i := range again {
+			obs[i].Status = ""
+		}
+		run(again, 3, 2)
+		s.TimeoutS, s.Seed = saveT, saveSeed
+	}
 }
 
 // splitDischarge proves an obligation path by path (every join above it resolved to one incoming edge).
@@ -304,7 +328,8 @@ func (s *Solver) splitDischarge(ob *Obligation) bool {
 		text := "(set-logic ALL)\n" + q
 		sum := sha256.Sum256([]byte(text))
 		h := hex.EncodeToString(sum[:])
-		file := filepath.Join(s.WorkDir, "q", h[:2], h+".smt2")
+		// the file name is unique per call: obligations with identical text run concurrently and each removes its file when done
+	file := filepath.Join(s.WorkDir, "q", h[:2], fmt.Sprintf("%s-%d-%d.smt2", h, os.Getpid(), atomic.AddInt64(&queryFileSeq, 1)))
 		os.MkdirAll(filepath.Dir(file), 0o755)
 		os.WriteFile(file, []byte(text), 0o644)
 		ok := false
